@@ -12,6 +12,7 @@ package main
 import (
 	"fmt"
 	"go/token"
+	"go/types"
 	"strings"
 
 	"golang.org/x/tools/go/ssa"
@@ -385,5 +386,112 @@ func ruleC13R5(c *Ctx) {
 			}
 		}
 	}
-	c.floor("C13.R5", "time.FixedZone calls in transform/tparsetime", n, 1)
+	// every location handed to time.Date is a fixed offset: time.UTC, the result of time.FixedZone, or a value of a cache
+	// that only ever receives such values. (time.Time).Location() of a parsed zone text is NOT one: time.Parse attaches
+	// time.Local when the offset equals the host zone's, and time.Local's offset varies with the date (DST).
+	nDate := 0
+	for _, fn := range c.P.universe {
+		if relPkg(fnPkgPath(fn)) != "transform/tparsetime" {
+			continue
+		}
+		for _, s := range callsIn(fn) {
+			f := s.Common().StaticCallee()
+			if f == nil || extName(f) != "time.Date" {
+				continue
+			}
+			nDate++
+			args := s.Common().Args
+			loc := args[len(args)-1]
+			seen := map[ssa.Value]bool{}
+			bad := ""
+			var walk func(v ssa.Value, d int, cached bool)
+			walk = func(v ssa.Value, d int, cached bool) {
+				v = strip(v)
+				if v == nil || seen[v] || d > 12 || bad != "" {
+					return
+				}
+				seen[v] = true
+				switch x := v.(type) {
+				case *ssa.Const:
+					if !x.IsNil() {
+						bad = "a constant location"
+					}
+				case *ssa.Phi:
+					for _, e := range x.Edges {
+						walk(e, d+1, cached)
+					}
+				case *ssa.Extract:
+					if cl, ok := x.Tuple.(*ssa.Call); ok {
+						if cf := cl.Common().StaticCallee(); cf != nil && c.P.inUni[cf] && cf.Blocks != nil {
+							for _, rv := range returnedValues(cf, x.Index) {
+								walk(rv.Val, d+1, cached)
+							}
+							return
+						}
+					}
+					walk(x.Tuple, d+1, cached)
+				case *ssa.Lookup:
+					// a cache: every value stored into a map of locations in this package
+					for _, g := range c.P.universe {
+						if relPkg(fnPkgPath(g)) != "transform/tparsetime" {
+							continue
+						}
+						eachInstr(g, func(in ssa.Instruction) {
+							if mu, ok := in.(*ssa.MapUpdate); ok && types.Identical(mu.Map.Type(), x.X.Type()) {
+								walk(mu.Value, d+1, true)
+							}
+						})
+					}
+				case *ssa.UnOp:
+					if gl, ok := x.X.(*ssa.Global); ok && x.Op == token.MUL {
+						if gl.Pkg.Pkg.Path() == "time" && gl.Name() == "UTC" {
+							return
+						}
+						// a timestamp without a zone is local time by documentation; but time.Local must never sit in the cache
+						// under the text of a numeric offset
+						if gl.Pkg.Pkg.Path() == "time" && gl.Name() == "Local" && !cached {
+							return
+						}
+						bad = "the variable " + gl.Pkg.Pkg.Path() + "." + gl.Name() + " (time.Local follows the host's DST rules)"
+						return
+					}
+					if al, ok := x.X.(*ssa.Alloc); ok {
+						for _, ref := range *al.Referrers() {
+							if st, ok := ref.(*ssa.Store); ok && st.Addr == ssa.Value(al) {
+								walk(st.Val, d+1, cached)
+							}
+						}
+						return
+					}
+					bad = "a location loaded from " + canonOf(x.X)
+				case *ssa.Call:
+					if cf := x.Common().StaticCallee(); cf != nil {
+						if c.P.inUni[cf] && cf.Blocks != nil {
+							for _, rv := range returnedValues(cf, 0) {
+								walk(rv.Val, d+1, cached)
+							}
+							return
+						}
+						switch extName(cf) {
+						case "time.FixedZone":
+							return
+						case "(time.Time).Location":
+							bad = "(time.Time).Location() — for a parsed zone text that is time.Local whenever the offset equals the host zone's, and time.Local's offset depends on the date"
+							return
+						}
+						bad = "the result of " + extName(cf)
+						return
+					}
+					bad = "the result of a dynamic call"
+				default:
+					bad = canonOf(v)
+				}
+			}
+			walk(loc, 0, false)
+			c.check(bad == "", "C13.R5", fn, "every location given to time.Date is a fixed offset", s.Pos(),
+				"time.UTC, time.FixedZone(…), a cache value that is one of these, or time.Local for a timestamp that states no zone",
+				"the location given to time.Date can be "+bad+": the instant computed for a stated numeric offset is then not that offset's (silently wrong timestamp, no error counted)")
+		}
+	}
+	c.floor("C13.R5", "time.Date calls in transform/tparsetime", nDate, 1)
 }
